@@ -91,7 +91,8 @@ PLANS = {
     "C11": dict(mc=[MC_BATCH_Q], gen=GEN_GENERAL),
     "C12": dict(mc=[MC_INVALID_Q], gen=GEN_GENERAL),
     "C13": dict(mc=[MC_BATCH_Q], gen=GEN_GENERAL),
-    "C15": dict(mc=[], gen=GEN_GENERAL),
+    "C15": dict(mc=[], gen=[dict(g, consts=dict(g["consts"], WithGenesis=True, KindBag=("<-", "BagGenesis"),
+                                                 Templates=set(g["consts"]["Templates"]) | {"Bx"})) for g in GEN_GENERAL]),
     "C16": dict(mc=[MC_BATCH_Q, MC_FIXED_Q], gen=GEN_GENERAL),
     "C18": dict(mc=[MC_INVALID_Q], gen=GEN_GENERAL),
     "C19": dict(mc=[MC_MULTI_Q], gen=GEN_GENERAL),
